@@ -328,7 +328,7 @@ func (c *WSConn) WSNegotiate(s *Script, timeout time.Duration) *Outcome {
 	}
 	for time.Now().Before(deadline) {
 		wait := time.Until(deadline)
-		if bound && !faulted {
+		if bound && !faulted && !s.ExpectEnable {
 			wait = IdleAfterBind
 		}
 		ev := c.Recv(wait)
